@@ -5,7 +5,7 @@ from checks.c05 import Cmd, Num, num, gen_cmd, gen_seq, gen_seq_safe, safe_dur, 
 
 ID = "C06"
 LEAN_MODULE = "Ctrmml.Properties.C06"
-THEOREMS = ["C06_per_track_state", "C06_leading_blanks_skip", "C06_bar_skip", "C06_comment_invariant", "C06_comment_line_invariant", "C06_track_id_map", "C06_track_list_ids", "C06_star_decimal", "C06_multitrack_unfold", "C06_conditional_select_partial", "C06_separator_suffices", "C06_layout_run_partial", "C06_layout_invariant_partial", "C06_multitrack_eq_single_partial", "C06_multitrack_blocks_run_partial", "C06_multitrack_eq_single_blocks_partial", "C06_alternatives_clean", "C06_nested_separator_counterexample", "C06_short_block_counterexample", "C06_layout_run2_partial", "C06_layout_invariant2_partial", "C06_multitrack_eq_single2_partial", "C06_track_count_bound", "C06_header_ids_16bit", "C06_multitrack_blocks_run16_partial", "C06_multitrack_eq_single_blocks16_partial", "C06_lcovered_transfer", "C06_cmdsOk_transfer", "C06_linesOk_transfer", "C06_layout_run_from_v2", "C06_layout_invariant_from_v2", "C06_multitrack_eq_single_from_v2", "C06_separator_suffices2", "C06_bare_echo_separator_counterexample"]
+THEOREMS = ["C06_per_track_state", "C06_leading_blanks_skip", "C06_bar_skip", "C06_comment_invariant", "C06_comment_line_invariant", "C06_track_id_map", "C06_track_list_ids", "C06_star_decimal", "C06_multitrack_unfold", "C06_conditional_select_partial", "C06_separator_suffices", "C06_layout_run_partial", "C06_layout_invariant_partial", "C06_multitrack_eq_single_partial", "C06_multitrack_blocks_run_partial", "C06_multitrack_eq_single_blocks_partial", "C06_alternatives_clean", "C06_nested_separator_counterexample", "C06_short_block_counterexample", "C06_layout_run2_partial", "C06_layout_invariant2_partial", "C06_multitrack_eq_single2_partial", "C06_track_count_bound", "C06_header_ids_16bit", "C06_multitrack_blocks_run16_partial", "C06_multitrack_eq_single_blocks16_partial", "C06_lcovered_transfer", "C06_cmdsOk_transfer", "C06_linesOk_transfer", "C06_layout_run_from_v2", "C06_layout_invariant_from_v2", "C06_multitrack_eq_single_from_v2", "C06_separator_suffices2", "C06_bare_echo_separator_counterexample", "C06_multitrack_blocks_run2_partial", "C06_multitrack_eq_single_blocks2_partial", "C06_multitrack_blocks_run2_16_partial", "C06_multitrack_eq_single_blocks2_16_partial", "C06_alternatives_clean2", "C06_clean_no_break", "C06_blinesOk_transfer", "C06_multitrack_blocks_run_from_v2", "C06_lcmdTail_v2_to_v3", "C06_covered_step3", "C06_separator_suffices3", "C06_linesOk_v2_to_v3", "C06_layout_run3_partial", "C06_layout_invariant3_partial", "C06_multitrack_eq_single3_partial", "C06_blinesOk_v2_to_v3", "C06_multitrack_blocks_run3_partial", "C06_multitrack_eq_single_blocks3_partial"]
 LEVEL = "proof"
 STREAM = "mml.layouts"
 CHUNK = 100
@@ -36,19 +36,29 @@ LEVEL_TEXT = ("Machine-checked theorems over the Lean models of Line_Buffer (inp
               "when the layout's commands are in LCovered), and C06_layout_run_from_v2 / C06_layout_invariant_from_v2 / C06_multitrack_eq_single_from_v2 = the exact round-2 statements derived from "
               "the *2 theorems through the transfer; C06_separator_suffices2 - behind a blank, tab, '|', ';' or the end of the line the look-ahead condition L2.LCmdTail of every command holds over "
               "LCovered2, for the echo when its duration is written (\\4, \\., \\:12); C06_bare_echo_separator_counterexample shows that condition is needed in this formulation (\\ + blank is outside L2.LCmdTail). "
+              "Round 5: the block theorems over LCovered2 - C06_multitrack_blocks_run2_partial / C06_multitrack_eq_single_blocks2_partial (and the 16-bit forms *2_16_partial): lines with conditional "
+              "blocks may now contain V n, V+n, V-n and \\ with a written duration inside and outside the alternatives, and the loop break / outside the blocks (inside an alternative the byte / is the "
+              "separator: Clean excludes it, C06_clean_no_break); C06_alternatives_clean2 - Clean is automatic for alternatives made of LCovered2 commands other than the loop break; "
+              "C06_blinesOk_transfer (BLinesOk => L2.BLinesOk on LCovered commands) and C06_multitrack_blocks_run_from_v2 = the exact round-2 block statement derived from the round-5 one. "
+              "Round 5, second part (Proofs/LayoutCmd3): the bare echo \\ followed by blanks or the end of the line - L3.LCmdTail widens the echo's look-ahead condition by that case (the blanks get_token skips are "
+              "what L2.lcmdSkip already counts); C06_covered_step3 = the one-command step lemma under L3.LCmdTail (same builder call, same bytes consumed), C06_lcmdTail_v2_to_v3, and C06_separator_suffices3 = "
+              "C06_separator_suffices2 WITHOUT its side condition on the echo. Third part (Proofs/LayoutLines3, namespace L2.W): the whole-line theorems for lines without conditional blocks replayed over L3.LCmdTail - "
+              "C06_layout_run3_partial / C06_layout_invariant3_partial / C06_multitrack_eq_single3_partial (hypotheses L2.W.LinesOk + L2.CmdsOk; same commands, builder calls and conclusions as the *2 forms) "
+              "and C06_linesOk_v2_to_v3 (L2.LinesOk => L2.W.LinesOk, no side condition, so the *3 forms subsume the *2 forms). Fourth part (Proofs/LayoutBlock3): the block theorems over L3.LCmdTail - C06_multitrack_blocks_run3_partial / C06_multitrack_eq_single_blocks3_partial "
+              "(hypotheses L2.W.BLinesOk + L2.CmdsOk; bare echo before blanks, |, /, } or the end of the line allowed inside and outside alternatives) and C06_blinesOk_v2_to_v3 (no side condition). "
               "Results are stated modulo the source references (line, column) stamped on the track, which necessarily differ between layouts. NOT proved: the same "
-              "statements for \\= , _{..} / k{..} (D16 interaction), '...', \\ followed by a blank or the end of the line, V with a hex-negative number, and the loop break / or V / \\ INSIDE lines with conditional blocks; they are kept as "
+              "statements for \\= , _{..} / k{..} (D16 interaction), '...', a bare \\ followed by blanks and then a number-like byte (a different spelling of \\n), V with a hex-negative number, and a loop break written INSIDE an alternative of a conditional block (D16, first face); they are kept as "
               "C06_full_statement_layout_invariant / C06_full_statement_multitrack_eq_single and decided per generated case by the metamorphic correspondence stream (every "
               "layout of every generated stream parsed by the real code and by the model, the spec demanding equal events per track across layouts and equality with "
               "the meaning of each track's command list).")
 LEVEL_NOTE = ("Trusted: Lean kernel (propext, Classical.choice, Quot.sound), the hand-written models Model/Lexer, Model/TrackBuilder, Model/Mml (agreement with "
               "the C++ established by differential testing), Spec/Layout + Spec/MmlMeaning (my reading of mml_ref.md), the layout generator in checks/c06.py "
               "(what counts as a layout of a stream), glibc strtol in the C locale. Proved in full: track_id_map, star_decimal, per_track_state, the local lexer/parser "
-              "lemmas, the transfer lemmas lcovered_transfer / cmdsOk_transfer / linesOk_transfer, separator_suffices and separator_suffices2 (the latter with the written-duration condition on the echo). Partial: conditional_select and the block theorems (hypothesis = no '/', ';', '}', NUL inside the alternatives and one alternative per track: "
-              "D16); layout_run / layout_invariant / multitrack_eq_single (round 4: also derived from their round-3 forms, *_from_v2, through the proved transfer CmdsOk => L2.CmdsOk, LinesOk => L2.LinesOk) and their round-3 forms *2 over LCovered2 (hypothesis CmdsOk / L2.CmdsOk = the covered command subset LCovered - C05's span theorem widened in Proofs/LayoutCmd - with numbers in range; the "
+              "lemmas, the transfer lemmas lcovered_transfer / cmdsOk_transfer / linesOk_transfer, separator_suffices, separator_suffices2 (with the written-duration condition on the echo) and separator_suffices3 / covered_step3 (no side condition, look-ahead condition L3.LCmdTail). Partial: conditional_select and the block theorems, round-2 forms and round-5 forms *2 over LCovered2 (hypothesis = no '/', ';', '}', NUL inside the alternatives and one alternative per track: "
+              "D16); layout_run / layout_invariant / multitrack_eq_single (round 4: also derived from their round-3 forms, *_from_v2, through the proved transfer CmdsOk => L2.CmdsOk, LinesOk => L2.LinesOk) and their round-3 forms *2 over LCovered2 and round-5 forms *3 (bare echo before blanks allowed; also the block theorems *blocks3) (hypothesis CmdsOk / L2.CmdsOk = the covered command subset LCovered - C05's span theorem widened in Proofs/LayoutCmd - with numbers in range; the "
               "layouts themselves are arbitrary). The layout theorems speak about the model's Track values modulo references; that the real parser produces the same "
               "events as the model on layouts is what the correspondence stream checks (the proof examples are corpus cases of the stream). Oracle only: layouts "
-              "containing commands outside LCovered2 (\\= _{..} '...', \\ before a blank; V, \\ and the loop break on lines with conditional blocks), the error behaviour of rejected streams, texts that are not layouts (must be rejected).")
+              "containing commands outside LCovered2 (\\= _{..} '...', the loop break inside an alternative of a conditional block), the error behaviour of rejected streams, texts that are not layouts (must be rejected).")
 RULE = ("abstract multi-track streams (1..4 tracks from letters, digits and *n incl. 0, 25, 26, 35, 36, 255, 65535; 1..4 segments addressed to sub-lists in any "
         "order; typed commands from the C05 generator; conditional blocks with one alternative per track, empty alternatives included) each rendered in 3..6 "
         "layouts: the canonical multi-track lines, the equivalent single-track lines, and random ones (partition of each segment's tracks into lines in any "
@@ -398,6 +408,15 @@ def corpus_streams():
     ev2 = [X("loopStart"), n_("c"), X("volFine", 10), X("loopBreak"), X("volFineUp", 2), Cmd("e", L(4)), X("volFineDown", 3), X("loopEnd", 2)]
     yield [Seg([0, 1], [("c", c_) for c_ in ev2])], [
         ["AB [c V10 / V+2 \\4 V-3 ]2"], ["B [c|V10/V+2", "\t\\4V-3]2 ; x", "A [c|V10/V+2", "\t\\4V-3]2 ; x"]]
+    # the round-5 proof example (exBlocks2 / exBlocks2B): fine volume inside the alternatives, echo behind the block
+    yield [Seg([0, 1], [("c", o4), ("b", [[n_("c"), X("volFine", 10)], [n_("d"), X("volFineUp", 2)]]), ("c", Cmd("e", L(4))), ("c", n_("e"))])], [
+        ["AB o4 {c V10/d V+2} \\4 e"], ["B o4 d|V+2", "\t\\4 e ; x", "A o4 c V10 \\4 e"]]
+    # the bare echo before a blank / the end of the line (C06_separator_suffices3)
+    yield [Seg([0, 1], [("c", o4), ("c", Cmd("e", ("D", 0))), ("c", n_("c"))])], [
+        ["AB o4 \\ c"], ["B o4\\", " c", "A o4 \\|c"]]
+    # the round-5 block example with bare echoes (exBlocks3 / exBlocks3A)
+    yield [Seg([0, 1], [("c", o4), ("b", [[n_("c"), Cmd("e", ("D", 0))], [n_("d"), X("volFineUp", 2)]]), ("c", Cmd("e", ("D", 0))), ("c", n_("e"))])], [
+        ["AB o4 {c \\ /d V+2} \\ e"], ["A o4 c\\|\\ e", "B o4 d V+2 \\ e"]]
     # hexadecimal numbers need their blank
     yield [Seg([0], [("c", n_("g", ("L", Num(12, True), 0))), ("c", n_("e")), ("c", Cmd("x", "vol", Num(10, True))), ("c", n_("a"))])], [
         ["A g$c e v$a a"], ["A g$c|e|v$a|a"], ["A g$c\te v$a", " a"]]
